@@ -2,12 +2,13 @@
 qcelemental.molparse.validate_and_fill_chgmult, and the property oracle on the implementation."""
 import contextlib
 import io
+import json
 import itertools
 from fractions import Fraction
 
 import numpy as np
 
-from .. import coqrun
+from .. import coqrun, histseq, histshrink
 from ..core import Corr
 from ..coqrun import cz, clist, copt, cbool
 
@@ -44,8 +45,18 @@ def _outcome(fn):
                    list(r["fragment_multiplicities"])))
 
 
+_LOG = []        # every call made on the implementation in this process, in order (JSON-able steps): the history of a failure
+_LOG_CAP = 1024  # the part of it that is searched for the shortest reproducing history
+
+
+def _fail(corr, d):
+    d["_at"] = len(_LOG)
+    corr.failures.append(d)
+
+
 def impl_call(felez, c, fc, m, fm, zgf):
     from qcelemental.molparse import validate_and_fill_chgmult
+    _LOG.append({"input": (felez, c, fc, m, fm, zgf)})
     zeff = np.array([z for f in felez for z in f], dtype=float)
     seps = list(itertools.accumulate(len(f) for f in felez))[:-1]
     return _outcome(lambda: validate_and_fill_chgmult(zeff, np.array(seps, dtype=int), c, list(fc), m, list(fm),
@@ -73,6 +84,7 @@ def entry_ok(entry, case):
 
 def impl_from_arrays(felez, c, fc, m, fm, zgf):
     from qcelemental.molparse import from_arrays
+    _LOG.append({"input": (felez, c, fc, m, fm, zgf), "entry": "from_arrays"})
     flat, elez, real, geom = _atoms(felez)
     seps = list(itertools.accumulate(len(f) for f in felez))[:-1]
     return _outcome(lambda: from_arrays(geom=geom, elez=elez, real=real, fragment_separators=seps, molecular_charge=c,
@@ -84,6 +96,7 @@ def impl_from_arrays(felez, c, fc, m, fm, zgf):
 def impl_molecule(felez, c, fc, m, fm, zgf):
     from qcelemental.models import Molecule
     from qcelemental import periodictable
+    _LOG.append({"input": (felez, c, fc, m, fm, zgf), "entry": "Molecule"})
     flat, elez, real, geom = _atoms(felez)
     frags, k = [], 0
     for f in felez:
@@ -124,6 +137,7 @@ def _np_num(x):
 
 def impl_variant(variant, felez, c, fc, m, fm, zgf):
     from qcelemental.molparse import validate_and_fill_chgmult
+    _LOG.append({"input": (felez, c, list(fc), m, list(fm), zgf), "variant": variant})
     flat = [z for f in felez for z in f]
     integral = all(float(z).is_integer() for z in flat)
     zeff = np.array(flat, dtype=float)
@@ -220,6 +234,7 @@ def alias_probe(entry, case, rounds=2):
     """call; modify the returned answer and the supplied argument objects in place; call again with fresh equal
     arguments.  Returns the list of canonical outcomes (all must be equal)."""
     outs = []
+    _LOG.append({"input": case, "entry": entry, "probe": "alias"})
     for _ in range(rounds + 1):
         fn, mut = _raw_args(entry, case)
         box = {}
@@ -661,7 +676,7 @@ def correspond(ctx):
             bad = oracle_refusal(case, out)
             corr.count("refusal-justified")
         if bad:
-            corr.failures.append({"stream": "oracle", "case": {"input": case}, "what": bad, "observed": out})
+            _fail(corr, {"stream": "oracle", "case": {"input": case}, "what": bad, "observed": out})
         try:
             if D is None:
                 terms.append(case_term(case, out))
@@ -670,7 +685,7 @@ def correspond(ctx):
                 termsD.append(case_term(case, out, D))
                 metaD.append((stream, case, out, D))
         except (ValueError, TypeError, OverflowError) as e:     # an answer that is not a multiple of 1/D, nan, ...
-            corr.failures.append({"stream": "oracle", "case": {"input": case}, "what": f"answer not representable: {e}",
+            _fail(corr, {"stream": "oracle", "case": {"input": case}, "what": f"answer not representable: {e}",
                                   "observed": out})
     corr.sample({"input": cases[0][1], "output": run(cases[0][1])})
 
@@ -699,7 +714,7 @@ def correspond(ctx):
                 bad = f"{entry} completes the specification differently from validate_and_fill_chgmult: {ref}"
                 ep_diffs.append(k)
             if bad:
-                corr.failures.append({"stream": "oracle-" + entry, "case": {"input": case, "entry": entry}, "what": bad,
+                _fail(corr, {"stream": "oracle-" + entry, "case": {"input": case, "entry": entry}, "what": bad,
                                       "observed": out})
     # the same specification handed over in other legal ways: verbosity levels (0, the default 1, 2), numpy scalars,
     # tuples / arrays for the lists, integer element counts, keyword arguments -- same completion required
@@ -713,7 +728,7 @@ def correspond(ctx):
             if bad is None and not _same_outcome(out, ref):
                 bad = f"called with {variant} the specification is completed differently from the plain call: {ref}"
             if bad:
-                corr.failures.append({"stream": "oracle-variant", "case": {"input": case, "variant": variant}, "what": bad,
+                _fail(corr, {"stream": "oracle-variant", "case": {"input": case, "variant": variant}, "what": bad,
                                       "observed": out})
     # answers handed out earlier (and argument objects handed in) are modified in place, then the identical query is
     # issued again with fresh equal arguments: a memo that shares its lists with the caller shows up here
@@ -731,7 +746,7 @@ def correspond(ctx):
             outs = alias_probe(entry, case)
             corr.count("alias-" + entry)
             if any(o != memo[repr(case)] for o in outs):
-                corr.failures.append({"stream": "alias-" + entry, "case": {"input": case, "entry": entry, "probe": "alias"},
+                _fail(corr, {"stream": "alias-" + entry, "case": {"input": case, "entry": entry, "probe": "alias"},
                                       "what": "the same query gave a different answer after the caller modified an earlier "
                                               "answer / the argument lists in place (or differs from the first answer of the run)",
                                       "observed": outs})
@@ -742,7 +757,7 @@ def correspond(ctx):
         again = impl_call(*cases[k][1])
         corr.count("determinism")
         if again != memo[repr(cases[k][1])]:
-            corr.failures.append({"stream": "determinism", "case": {"input": cases[k][1]},
+            _fail(corr, {"stream": "determinism", "case": {"input": cases[k][1]},
                                   "what": "same input gave a different answer later in the run",
                                   "observed": [memo[repr(cases[k][1])], again]})
     ctx.log(f"{len(terms)} integer + {len(termsD)} fractional cases through the implementation; evaluating the model")
@@ -762,8 +777,29 @@ def correspond(ctx):
             got, _ = coqrun.eval_terms("C05D", REQ, "", [f"fillD (fst (fst {termsD[b]})) (snd (fst {termsD[b]}))"])
             corr.disagreements.append({"stream": stream, "case": {"input": case, "D": D}, "impl": out,
                                        "model": f"(charges and electron counts in units of 1/{D}) {got}"})
+    # a failure may depend on earlier calls (a cache keyed too coarsely, a shared list): record the shortest history of calls
+    # that reproduces it in a fresh interpreter, so that the replay file is self-contained; reproducing failures first
+    def steps_of(f):
+        at = f.get("_at")
+        if at is None:
+            return None
+        return json.loads(json.dumps(_LOG[max(0, at - _LOG_CAP):at] + [f["case"]]))
+    corr.failures = histshrink.order_and_attach("c05", corr.failures, steps_of, log=ctx.log)
+    for f in corr.failures:
+        f.pop("_at", None)
     corr.exhaustive = False
     return corr
+
+
+def run_history(steps):
+    """histseq interface: the recorded calls one after the other in this interpreter; complaints about the LAST one"""
+    for st in steps[:-1]:
+        try:
+            _judge(st)
+        except Exception:
+            pass
+    _out, bad = _judge(steps[-1])
+    return [bad] if bad else []
 
 
 def _judge(case_d):
@@ -796,6 +832,8 @@ def search(ctx, corr, reasons):
     """Oracle on the implementation for the disagreeing cases (the corpus and the full sample were
     already judged by the oracle inside correspond)."""
     found = []
+    if corr.failures:        # the oracle inside correspond already produced concrete (and, where needed, history-carrying) failing inputs
+        return found
     for d in corr.disagreements:
         out, bad = _judge(d["case"])
         if bad:
@@ -804,6 +842,11 @@ def search(ctx, corr, reasons):
 
 
 def replay(ctx, rp):
+    if rp["case"].get("history"):
+        last = {k: v for k, v in rp["case"].items() if k != "history"}
+        got = histseq.fresh_run("c05", list(rp["case"]["history"]) + [last])
+        return {"input": rp["case"], "oracle": got, "fails": bool(got),
+                "note": "history replay: the earlier calls are re-run in a fresh interpreter before the case"}
     out, bad = _judge(rp["case"])
     return {"input": rp["case"], "implementation": out, "oracle": bad, "fails": bool(bad)}
 
